@@ -11,6 +11,7 @@
 package main
 
 import (
+	"bytes"
 	"context"
 	"encoding/json"
 	"fmt"
@@ -123,7 +124,15 @@ func runFor(limit time.Duration, dir string, extraEnv []string, name string, arg
 	cmd := exec.CommandContext(ctx, name, args...)
 	cmd.Dir = dir
 	cmd.Env = append(env(), extraEnv...)
-	out, err := cmd.CombinedOutput()
+	var buf bytes.Buffer
+	cmd.Stdout, cmd.Stderr = &buf, &buf
+	err := cmd.Start()
+	if err == nil {
+		track(cmd.Process)
+		err = cmd.Wait()
+		untrack(cmd.Process)
+	}
+	out := buf.Bytes()
 	if ctx.Err() != nil {
 		err = fmt.Errorf("killed after %v: %w", limit, err)
 	}
@@ -131,6 +140,23 @@ func runFor(limit time.Duration, dir string, extraEnv []string, name string, arg
 }
 
 var scratchDir string
+
+// children are the worker processes alive right now: an interrupted driver
+// takes them with it (they would otherwise run on to the end of their budget).
+var (
+	childMu  sync.Mutex
+	children = map[*os.Process]bool{}
+)
+
+func track(p *os.Process)   { childMu.Lock(); children[p] = true; childMu.Unlock() }
+func untrack(p *os.Process) { childMu.Lock(); delete(children, p); childMu.Unlock() }
+func killChildren() {
+	childMu.Lock()
+	for p := range children {
+		p.Kill()
+	}
+	childMu.Unlock()
+}
 
 func fatal(format string, a ...any) {
 	fmt.Fprintf(os.Stderr, "check: "+format+"\n", a...)
@@ -209,6 +235,7 @@ func main() {
 	signal.Notify(sigc, syscall.SIGINT, syscall.SIGTERM, syscall.SIGHUP, syscall.SIGPIPE)
 	go func() {
 		<-sigc
+		killChildren()
 		os.RemoveAll(scratch)
 		os.Exit(3)
 	}()
@@ -881,6 +908,8 @@ func runEnum(s *part, root, scratch, tier string, passthru []string) *PartResult
 	err := cmd.Start()
 	stuck := false
 	if err == nil {
+		track(cmd.Process)
+		defer untrack(cmd.Process)
 		done := make(chan error, 1)
 		go func() { done <- cmd.Wait() }()
 		select {
